@@ -69,6 +69,17 @@ impl Value {
         }
     }
 
+    /// Returns the string that `ValueRef::create` would intern into the
+    /// string pool for this value, if any.
+    pub(crate) fn string_to_intern(&self) -> Option<&str> {
+        match *self {
+            Value::Str(ref string) if !string.is_empty() => {
+                Some(string.as_str())
+            }
+            _ => None,
+        }
+    }
+
     /// Coerces the `Value` to a boolean.  Returns false for null, zero, and
     /// empty string; returns true for all other values.
     pub(crate) fn to_bool(&self) -> bool {
